@@ -21,7 +21,7 @@ NameSeq == <<"wk", "n1", "n2", "n3", "n4", "n5", "n6", "n7", "n8", "n9", "n10", 
              "n15", "n16", "n17", "n18", "n19", "n20">>
 TraceNames == {NameSeq[i] : i \in DOMAIN NameSeq}
 AnyRole == [c \in Sides |-> {"Socket", "BindNone", "BindAddr", "BindName", "Listen", "Accept", "Close", "RecvFrom",
-                             "Resolve", "ConnectName", "ConnectAddr", "SendTo"}]
+                             "Resolve", "ConnectName", "ConnectAddr", "SendTo", "Recv", "PeerFrmr"}]
 AnyKind == [c \in Sides |-> <<>>]
 NoBound == [c \in Sides |-> 1000000]
 
@@ -34,7 +34,7 @@ TInit ==
 Ev == T[l]
 IsEv(op) == l <= Len(T) /\ Ev.op = op /\ l' = l + 1 /\ UNCHANGED tid
 
-Fixes == [wks : BOOLEAN, snl : BOOLEAN]
+Fixes == [wks : BOOLEAN, snl : BOOLEAN, keep : {FALSE}]
 
 \* --- guarded spec actions with the logged arguments -------------------------------------------
 Guarded ==
@@ -48,6 +48,8 @@ Guarded ==
     \/ IsEv("Accept")      /\ Accept(Ev.c, Ev.s)
     \/ IsEv("SendTo")      /\ SendTo(Ev.c, Ev.s, Ev.dst, Ev.m)
     \/ IsEv("RecvFrom")    /\ RecvFrom(Ev.c, Ev.s)
+    \/ IsEv("Recv")        /\ Recv(Ev.c, Ev.s)
+    \/ IsEv("PeerFrmr")    /\ PeerFrmr(Ev.c, Ev.s)
     \/ IsEv("Resolve")     /\ Resolve(Ev.c, Ev.n)
     \/ IsEv("Close")       /\ \E fx \in Fixes : CloseF(Ev.c, Ev.s, fx)
 
@@ -91,6 +93,18 @@ Conforms == Guarded /\ ResOk /\ PostOk
 \* the call conforms to the spec action; invariants it breaks are recorded and the history goes on
 Real == Conforms /\ fails' = IF AllInv THEN fails ELSE Append(fails, <<l, Ev.op, Broken>>)
 
+\* --- the allocation invariant on the REAL tables (the logged projection), evaluated after every call:
+\* a socket the application has closed is in no access point, an access point without sockets does not exist,
+\* and every registered service name points at an existing access point
+RT_ClosedGone(P)  == \A i \in DOMAIN P.sap : \A j \in DOMAIN P.sap[i][2] : P.sk[P.sap[i][2][j]].st # "shut"
+RT_NoEmptyAp(P)   == \A i \in DOMAIN P.sap : P.sap[i][2] # <<>>
+RT_NamesLive(P)   == \A i \in DOMAIN P.snl : \E j \in DOMAIN P.sap : P.sap[j][1] = P.snl[i][2] + 1 /\ P.sap[j][2] # <<>>
+RealNames == <<"ClosedSocketInAccessPoint", "AccessPointWithoutSockets", "NameOfRemovedAccessPoint">>
+RealP(n, P) == CASE n = "ClosedSocketInAccessPoint" -> RT_ClosedGone(P)
+                 [] n = "AccessPointWithoutSockets" -> RT_NoEmptyAp(P)
+                 [] n = "NameOfRemovedAccessPoint"  -> RT_NamesLive(P)
+BrokenReal == SelectSeq(RealNames, LAMBDA n : ~(RealP(n, Ev.post.A) /\ RealP(n, Ev.post.B)))
+
 \* --- diagnosis -------------------------------------------------------------------------------
 \* what the shipped code's model answers (for the message only)
 Expected ==
@@ -104,7 +118,7 @@ Expected ==
       [] OTHER -> "-"
 Why == IF ~ENABLED Guarded THEN <<"guard">>
        ELSE IF ~ENABLED (Guarded /\ ResOk) THEN <<"result", Expected>>
-       ELSE <<"post">>
+       ELSE <<"post", BrokenReal>>
 
 Stuck ==
     /\ l <= Len(T)
